@@ -258,6 +258,54 @@ def run(ctx, model_available=True):
         except Exception as e:  # noqa: BLE001
             if not isinstance(e, ex.TransportError):
                 failures.append({"kind": "oracle", "sig": "C17:connect", "desc": f"failed connection attempt raised {type(e).__name__}", "case": {}})
+    # the same transport object over several connections: connect, use, disconnect, connect again
+    from aiomysensors.transport import StreamTransport
+
+    class Multi(StreamTransport):
+        def __init__(self, conns):
+            super().__init__()
+            self.conns = list(conns)
+
+        async def _open_connection(self):
+            c = self.conns.pop(0)
+            if isinstance(c, BaseException):
+                raise c
+            return c
+
+    for _ in range(ctx.budget(30, 300)):
+        dist["write_scenarios"] += 1
+
+        async def mk2():
+            return asyncio.StreamReader(), asyncio.StreamReader()
+
+        r1, r2 = loop.run_until_complete(mk2())
+        w1, w2 = FakeWriter(fail_close=rng.random() < 0.3), FakeWriter()
+        third = rng.choice([ConnectionRefusedError("refused"), None])
+        t = Multi([(r1, w1), (r2, w2)] + ([third] if third else []))
+        r1.feed_data(b"first;1\nleft over")
+        r2.feed_data(b"second;2\n")
+        try:
+            loop.run_until_complete(t.connect())
+            a = loop.run_until_complete(t.read())
+            loop.run_until_complete(t.write("to-first\n"))
+            loop.run_until_complete(t.disconnect())
+            loop.run_until_complete(t.connect())
+            b = loop.run_until_complete(asyncio.wait_for(t.read(), 1))
+            loop.run_until_complete(t.write("to-second\n"))
+            loop.run_until_complete(t.disconnect())
+        except Exception as e:  # noqa: BLE001
+            failures.append({"kind": "oracle", "sig": "C17:reconnect", "desc": f"connect / use / disconnect / connect again on one transport object raised {type(e).__name__}: {e}", "case": {}})
+            continue
+        if (a, b) != ("first;1\n", "second;2\n") or bytes(w1.out) != b"to-first\n" or bytes(w2.out) != b"to-second\n":
+            failures.append({"kind": "oracle", "sig": "C17:reconnect",
+                             "desc": f"after disconnect and a second connect the transport still uses the first stream: reads {(a, b)}, first peer got {bytes(w1.out)!r}, second peer got {bytes(w2.out)!r}", "case": {}})
+        if third:
+            try:
+                loop.run_until_complete(t.connect())
+                failures.append({"kind": "oracle", "sig": "C17:reconnect", "desc": "a refused third connection attempt did not raise", "case": {}})
+            except Exception as e:  # noqa: BLE001
+                if not isinstance(e, ex.TransportError):
+                    failures.append({"kind": "oracle", "sig": "C17:reconnect", "desc": f"a refused reconnect raised {type(e).__name__}", "case": {}})
     # an OSError while reading
     class BrokenReader:
         async def readuntil(self, sep):
